@@ -267,6 +267,8 @@ struct Slot
     }
 };
 
+static u64 g_shidx[3][MAXL]; // index / stride tables shared by the concurrent callers of the re-entrancy step
+static bool g_shared_idx = false;
 static u64 *g_big[3]; // plain mode arenas (mmap, guard pages on both sides)
 static u64 *g_aux;
 
@@ -313,7 +315,9 @@ inline std::string run_case(const Case &c, Counters *cnt, std::string *sample = 
         if (o.carrier == C_ARR_IDX)
         {
             for (int k = 0; k < L; k++) idxbuf[q][k] = idxval(c.ip[q], k, L, o.kind);
-            if (OVL_PRIVATE)
+            if (g_shared_idx)
+                sl[q].idx = g_shidx[q]; // re-entrancy step: the index / stride tables are inputs, all concurrent callers share one copy
+            else if (OVL_PRIVATE)
             {
                 sl[q].idx = (u64 *)malloc(L * sizeof(u64));
                 memcpy(sl[q].idx, idxbuf[q], L * sizeof(u64));
@@ -624,7 +628,7 @@ inline std::string run_case(const Case &c, Counters *cnt, std::string *sample = 
     {
         if (sl[q].alloc) free(sl[q].alloc);
         if (sl[q].map && root[q] == q) munmap(sl[q].map, sl[q].maplen);
-        if (OVL_PRIVATE && sl[q].idx) free(sl[q].idx);
+        if (OVL_PRIVATE && sl[q].idx && !g_shared_idx) free(sl[q].idx);
     }
     if (auxalloc) free(auxalloc);
     return fail;
@@ -1019,6 +1023,12 @@ inline Case reent_case(int si, int T)
 inline std::string reent_run(const Case &c)
 {
     int T = c.reent < 2 ? 3 : c.reent;
+    {
+        const Spec &s = ovl_specs[c.si];
+        for (int q = 0; q < 3; q++)
+            for (int k = 0; k < s.lanes && k < MAXL; k++) g_shidx[q][k] = idxval(c.ip[q], k, s.lanes, opnd(s, q).kind);
+        g_shared_idx = true;
+    }
     std::atomic<int> ready(0);
     std::vector<std::string> fails(T);
     std::vector<std::thread> th;
@@ -1033,6 +1043,7 @@ inline std::string reent_run(const Case &c)
             }
         });
     for (auto &x : th) x.join();
+    g_shared_idx = false;
     for (auto &f : fails)
         if (!f.empty()) return f;
     return "";
